@@ -105,9 +105,11 @@ class C03(Prop):
         n = 60 if tier == 'quick' else scale(6000)
         out = []
         sel_faults = ('unknown-port-name', 'provides-name-on-requires-side', 'named-under-both', 'all-with-names',
-                      'uncovered-requires-port', 'mixed-provides', 'uncovered-provides-port')
+                      'uncovered-requires-port', 'mixed-provides', 'uncovered-provides-port',
+                      'mc-mixed-provides-names', 'mc-mixed-provides-both-named')
         for i in range(n):
-            c = G.gen_case(rng, want_mc=False)
+            # one case in four has a multi-client configuration: the selection rules hold next to it unchanged
+            c = G.gen_case(rng, want_mc=(i % 4 == 3))
             if i % 2 == 0:
                 # injected requires ports together with explicit-only selections (no wildcard): the
                 # injected port is never named and must not need a semantics
